@@ -1,0 +1,60 @@
+//go:build verif
+
+package syncer
+
+import (
+	"sync"
+	"time"
+)
+
+// Verification hooks, only compiled with the build tag "verif".
+//
+// verifYield is called at the boundaries between the sync loop's own atomic
+// steps (LMDB transactions, env.Info() calls, storage calls). The callback runs
+// in the calling goroutine, so a harness can commit an application transaction,
+// inject a snapshot or cancel exactly there.
+//
+// verifClock lets a harness substitute the wall clock read by LoadOnce/SendOnce.
+
+var (
+	verifMu       sync.Mutex
+	verifYieldFns = map[*Syncer]func(point string){}
+	verifClockFn  func(t time.Time) time.Time
+)
+
+// VerifSetYield installs (or, with nil, removes) the yield callback of s.
+func VerifSetYield(s *Syncer, f func(point string)) {
+	verifMu.Lock()
+	defer verifMu.Unlock()
+	if f == nil {
+		delete(verifYieldFns, s)
+	} else {
+		verifYieldFns[s] = f
+	}
+}
+
+// VerifSetClock installs (or, with nil, removes) the clock substitute.
+func VerifSetClock(f func(t time.Time) time.Time) {
+	verifMu.Lock()
+	defer verifMu.Unlock()
+	verifClockFn = f
+}
+
+func (s *Syncer) verifYield(point string) {
+	verifMu.Lock()
+	f := verifYieldFns[s]
+	verifMu.Unlock()
+	if f != nil {
+		f(point)
+	}
+}
+
+func verifClock(t time.Time) time.Time {
+	verifMu.Lock()
+	f := verifClockFn
+	verifMu.Unlock()
+	if f != nil {
+		return f(t)
+	}
+	return t
+}
